@@ -15,7 +15,9 @@ func decConfigs(c *core.Check) []map[string]string {
 	all := "\"all\""
 	cfgs := []map[string]string{{"MaxSpecD": "1", "MaxItems": "2", "ItemMode": all}, {"MaxSpecD": "2", "MaxItems": "1", "ItemMode": all},
 		// three items from a small pool: the interplay of several blocks of one type
-		{"MaxSpecD": "1", "MaxItems": "3", "ItemMode": "\"few\""}}
+		{"MaxSpecD": "1", "MaxItems": "3", "ItemMode": "\"few\""},
+		// two items from the small pool under every spec tree of depth 2
+		{"MaxSpecD": "2", "MaxItems": "2", "ItemMode": "\"few\""}}
 	if c.Tier == "thorough" {
 		cfgs = []map[string]string{{"MaxSpecD": "2", "MaxItems": "2", "ItemMode": all}, {"MaxSpecD": "2", "MaxItems": "3", "ItemMode": "\"few\""}}
 	}
